@@ -1,6 +1,7 @@
 package univ
 
 import (
+	"strings"
 	"fmt"
 
 	"verif/mc/spec"
@@ -95,6 +96,54 @@ func idxOf(label string) int {
 func Misuses() []Misuse {
 	base := append(misusesFixed(), collisionMisuses()...)
 	out := append([]Misuse{}, base...)
+	// multi-word family: every collision rule again with names whose JSON name differs from the proto name (street ->
+	// street_name / streetName): a collision is between the names on the wire, whichever spelling a check stores
+	rename := map[string]string{"street": "street_name", "city": "city_name", "type": "event_type", "id": "ref_id"}
+	camel := map[string]string{"street": "streetName", "city": "cityName", "type": "eventType", "id": "refId"}
+	for _, mu := range base {
+		mu := mu
+		if mu.Build == nil || !(strings.Contains(mu.Rule, "collision") || strings.Contains(mu.Rule, "collides")) {
+			continue
+		}
+		mw := mu
+		mw.Rule = mu.Rule + "_multiword"
+		mw.Offenders = nil
+		for _, o := range mu.Offenders {
+			if r, ok := rename[o]; ok {
+				mw.Offenders = append(mw.Offenders, r, camel[o])
+			} else {
+				mw.Offenders = append(mw.Offenders, o)
+			}
+		}
+		mw.Build = func() ([]*spec.Message, []*spec.Enum) {
+			ms, es := mu.Build()
+			var walk func(m *spec.Message)
+			walk = func(m *spec.Message) {
+				for _, f := range m.Fields {
+					if r, ok := rename[f.Name]; ok {
+						f.Name = r
+					}
+					if f.FlattenPrefix != nil {
+						// (prefixes stay as they are)
+						_ = f
+					}
+				}
+				for _, o := range m.Oneofs {
+					if c, ok := camel[o.Disc]; ok {
+						o.Disc = c
+					}
+				}
+				for _, n := range m.Messages {
+					walk(n)
+				}
+			}
+			for _, m := range ms {
+				walk(m)
+			}
+			return ms, es
+		}
+		out = append(out, mw)
+	}
 	// sibling family: every rule whose offending message consists of the offending field alone, again with unrelated
 	// sibling fields before and after it (a validation must not depend on the offender being the only field)
 	for _, mu := range base {
